@@ -2,7 +2,7 @@
 
 from __future__ import annotations
 
-from typing import TYPE_CHECKING, ClassVar, Generic, TypeVar, cast
+from typing import TYPE_CHECKING, Any, ClassVar, Generic, TypeVar, cast
 from warnings import warn
 
 import numpy as np
@@ -95,6 +95,20 @@ class Isotension(Isobaric[MoveType, CriteriaType], Generic[MoveType, CriteriaTyp
                 UserWarning,
                 2,
             )
+
+    def to_dict(self) -> dict[str, Any]:
+        """
+        Convert the `Isotension` object to a dictionary.
+
+        Returns
+        -------
+        dict[str, Any]
+            A dictionary representation of the `Isotension` object.
+        """
+        dictionary = super().to_dict()
+        dictionary["kwargs"]["external_stress"] = self.external_stress
+
+        return dictionary
 
     @property
     def external_stress(self) -> Stress:
